@@ -25,3 +25,47 @@ package storage
 //@   ensures [C07.varlong_value_10] err == nil && brPos(reader) - old(brPos(reader)) == 10 && kvPayload(reader, old(brPos(reader)), 10) < 18446744073709551616 ==> mathint(result0) == kvUnzigzag(kvPayload(reader, old(brPos(reader)), 10))
 //@   ensures [C07.varlong_rejects_only_truncated_or_overlong] err != nil ==> (brPos(reader) == brLen(reader) || brPos(reader) - old(brPos(reader)) >= 10) && (forall i int :: old(brPos(reader)) <= i && i < brPos(reader) ==> brAt(reader, i) >= 128)
 //@   loop 1 invariant [C07.varlong_inv] shift == 7 * (brPos(reader) - old(brPos(reader))) && brPos(reader) - old(brPos(reader)) <= 9 && (forall i int :: old(brPos(reader)) <= i && i < brPos(reader) ==> brAt(reader, i) >= 128) && mathint(value) == kvPayload(reader, old(brPos(reader)), brPos(reader) - old(brPos(reader))) && 0 <= mathint(value) && mathint(value) < (1 << shift)
+
+// ---- restore scanner: record layer (same field order as the processors' decoders) ----
+//@ func scanRecord
+//@   only_for C07
+//@   ghost glen int64 = 0
+//@   ghost gts int64 = 0
+//@   ghost god int64 = 0
+//@   at readVarint#1 before assert [C07.record_length_from_outer_stream] arg0 == reader
+//@   at readVarint#1 after set glen = ret0
+//@   at NewReader#1 before assert [C07.record_body_is_length_bytes] int64(len(arg0)) == glen
+//@   at readVarint#2 before assert [C07.timestamp_delta_after_attributes] arg0 == buf && brPos(buf) == 1
+//@   at readVarint#2 after set gts = ret0
+//@   at readVarint#3 after set god = ret0
+//@   ensures [C07.scan_timestamp_delta] err == nil ==> timestampDelta == gts
+//@   ensures [C07.scan_offset_delta] err == nil ==> offsetDelta == int32(god)
+
+// ---- restore scanner: segment framing ----
+//@ func collectRecoverableBatches
+//@   only_for C07
+//@   ghost gstart int = 0
+//@   ghost gflen int = 0
+//@   at append#1 before set gstart = offset
+//@   at append#1 before set gflen = 12 + int(be32(segmentBytes, 32 + offset + 8))
+//@   at append#1 before assert [C07.frame_is_12_plus_batch_length] base(arg1) == base(segmentBytes) && off(arg1) == off(segmentBytes) + 32 + offset && len(arg1) == gflen && 32 + offset + gflen <= len(segmentBytes) - 16
+//@   at loopstep#1 assert [C07.frames_are_consecutive] offset == gstart + gflen
+//@   ensures [C07.short_segment_rejected] len(segmentBytes) < 48 ==> err != nil
+
+// ---- footer and index parsing: the fields are taken from the offsets the writer wrote them at ----
+// footer = crc uint32 @0 | last offset int64 @4 | "END!" @12 ; index = "IDX\0" | version uint16 @4 | count int32 @6 |
+// interval int32 @10 | reserved uint16 @14 | count entries of (offset int64, position int32) from @16
+//@ func parseSegmentFooter
+//@   ensures [C07.footer_last_offset_at_4] err == nil ==> len(data) >= 16 && result0 == int64(be64(data, 4))
+//@   ensures [C07.footer_magic_checked] err == nil ==> data[12] == 'E' && data[13] == 'N' && data[14] == 'D' && data[15] == '!'
+//@
+//@ func parseIndexMetadata
+//@   only_for C07
+//@   ensures [C07.index_count_and_interval] err == nil ==> len(data) >= 16 && len(result1) == int(int32(be32(data, 6))) && result0 == int32(be32(data, 10))
+//@   ensures [C07.index_entries_from_bytes] err == nil ==> (forall k int :: 0 <= k && k < len(result1) ==> result1[k] != nil && result1[k].Offset == int64(be64(data, 16 + 12*k)) && result1[k].Position == int32(be32(data, 16 + 12*k + 8)))
+//@   ensures [C07.index_version_checked] err == nil ==> be16(data, 4) == 1
+//@   loop 1 invariant [C07.index_inv] count == int32(be32(data, 6)) && interval == int32(be32(data, 10)) && version == 1 && be16(data, 4) == 1 && brPos(reader) == 12 + 12*int(i) && (forall k int :: 0 <= k && k < int(i) ==> entries[k] != nil && entries[k].Offset == int64(be64(data, 16 + 12*k)) && entries[k].Position == int32(be32(data, 16 + 12*k + 8)))
+//@
+//@ func ParseIndex
+//@   only_for C07
+//@   ensures [C07.parse_index_entries] err == nil ==> len(data) >= 16 && len(result0) == int(int32(be32(data, 6))) && (forall k int :: 0 <= k && k < len(result0) ==> result0[k] != nil && result0[k].Offset == int64(be64(data, 16 + 12*k)) && result0[k].Position == int32(be32(data, 16 + 12*k + 8)))
